@@ -340,8 +340,11 @@ CLASSES = [
     ("kf_combine_starred_arg", ("combine-startswith-endswith", "combine-isinstance-issubclass"), lambda t, s, b, a: combine_starred(t)),
     ("kf_combine_regroup", ("combine-startswith-endswith", "combine-isinstance-issubclass"), lambda t, s, b, a: combine_regroup(t)),
     ("kf_combine_tuple_name", ("combine-startswith-endswith",), lambda t, s, b, a: combine_name_argument(t) and RAISES(a, "TypeError")),
-    ("kf_invert_is_false_operand", ("invert-boolean-check",), lambda t, s, b, a: invert_is_false_operand(t)),
+    # kf_invert_is_false_operand (lost parentheses) was repaired by 745793f; what still differs on those programs is the
+    # `not x is False` -> `x` rewrite on a non-bool operand, i.e. kf_invert_is_literal, which is therefore tested first.
+    # A return of the parentheses defect flips the translator's invert shape (iv_parens) and is reported through the table.
     ("kf_invert_is_literal", ("invert-boolean-check",), lambda t, s, b, a: invert_is_literal(t)),
+    ("kf_invert_is_false_operand", ("invert-boolean-check",), lambda t, s, b, a: invert_is_false_operand(t)),
     ("kf_invert_partial_order", ("invert-boolean-check",), lambda t, s, b, a: invert_partial_order(t)),
     ("kf_generator_starred_arg", ("use-generator",), lambda t, s, b, a: generator_starred(t)),
     ("kf_generator_await", ("use-generator",), lambda t, s, b, a: generator_await(t)),
